@@ -13,6 +13,9 @@ Extracted (nothing is guessed; an unrecognised body gives `none` and a failed st
                         ExecutionContext have the transcribed bodies
   * instrShape          GET / MEM / UPDATE / GET_AND_UPDATE of instructions/struct.py call get / contains / update
   * keyHashPrefix / keyHashDigestSize   `forge_script_expr` = base58 `expr` of Blake2b with a 32-byte digest
+  * duplicateShape      `BigMapType.duplicate` (DUP): same id, deep copies of the stored items and removed keys
+  * mergeShape          how `merge_lazy_diff` (pytezos' own reading of an emitted diff) decides that an update carries a
+                        value: `is not None` (repaired) or truthiness (pinned: an empty-sequence value — `{}` — reads as a removal)
 """
 import ast
 import copy
@@ -205,6 +208,34 @@ def get_big_map_value(self, ptr, key_hash):
 ''',
 }
 
+DUPLICATE = '''
+def duplicate(self):
+    res = type(self)(items=deepcopy(self.items), ptr=self.ptr, removed_keys=deepcopy(self.removed_keys))
+    res.context = self.context
+    return res
+'''
+
+MERGE = '''
+def merge_lazy_diff(self, lazy_diff):
+    diff = next((item for item in lazy_diff if item['kind'] == 'big_map' and item['id'] == str(self.ptr)), None)
+    if diff:
+        items = []
+        removed_keys = []
+        for update in diff['diff'].get('updates', []):
+            key = self.args[0].from_micheline_value(update['key'])
+            if %s:
+                value = self.args[1].from_micheline_value(update['value'])
+                items.append((key, value))
+            else:
+                removed_keys.append(key)
+        res = type(self)(ptr=self.ptr, items=items, removed_keys=removed_keys)
+        res.context = self.context
+        return res
+    else:
+        return copy(self)
+'''
+MERGE_TESTS = (("update.get('value') is not None", 'isNotNone'), ("'value' in update", 'isNotNone'), ("update.get('value')", 'truthy'))
+
 SCRIPT_EXPR = '''
 def forge_script_expr(packed_key):
     data = blake2b_32(packed_key).digest()
@@ -277,6 +308,17 @@ def gen_c15(status):
          'one diff entry: id/action from `get_big_map_diff`, one update per element of `self`, result = empty map at the new id')
     flag('BigMapType.attach_context shape', 'attachShape', _same(find_func(bm, 'attach_context'), ATTACH),
          '`attach_context`: temporary id for a literal, `register_big_map` for an id')
+    flag('BigMapType.duplicate shape', 'duplicateShape', _same(find_func(bm, 'duplicate'), DUPLICATE),
+         '`duplicate` (DUP): same id, deep copies of the stored items and of the removed keys')
+    mfn = find_func(bm, 'merge_lazy_diff')
+    mshape = next((name for test, name in MERGE_TESTS if _same(mfn, MERGE % test)), None)
+    status['BigMapType.merge_lazy_diff shape'] = (
+        mshape is not None, 'value test: is not None' if mshape == 'isNotNone' else
+        'truthiness test: an update whose value is an empty sequence is read as a removal' if mshape == 'truthy' else 'unrecognised body')
+    out.append('/-- how `merge_lazy_diff` decides that an update of the diff carries a value -/\n'
+               'inductive MergeTest\n  | isNotNone   -- `update.get(\'value\') is not None`\n'
+               '  | truthy      -- `if update.get(\'value\')`: an empty Micheline sequence is falsy\n  deriving DecidableEq, Repr\n')
+    out.append(f'def mergeShape : Option MergeTest := {"some ." + mshape if mshape else "none"}\n')
     ok = all(_same(find_func(ctx, n), ref) for n, ref in CTX.items())
     bad = [n for n, ref in CTX.items() if not _same(find_func(ctx, n), ref)]
     status['ExecutionContext big_map functions shape'] = (ok, '' if ok else 'unrecognised: ' + ', '.join(bad))
